@@ -792,8 +792,11 @@ func mapOrder(u unit) *result {
 				if o.sameResult(first) {
 					if o.ErrText != first.ErrText && !textNoted {
 						textNoted = true
-						res.Info["error_text_depends_on_map_order(informational)"]++
-						res.Info["error_text_depends_on_map_order(informational): "+op.Name+" on "+base]++
+						// the error is part of the result: its text has to be the same under every order as well. The class of
+						// the message (the words both texts share) comes first in the signature.
+						res.report("C14|maporder-error-text|"+errClass(first.ErrText, o.ErrText)+"|"+op.Name,
+							fmt.Sprintf("%s on %s fails under every map iteration order, but with different error texts: start 0 gives %q, start %d gives %q", op.Name, base, first.ErrText, r, o.ErrText),
+							map[string]any{"sub": "maporder", "schema": path, "ops": []string{op.Name}, "r": []int{0, r}})
 					}
 					continue
 				}
@@ -825,6 +828,23 @@ func mapOrder(u unit) *result {
 		}
 	}
 	return res
+}
+
+// errClass is what two error texts have in common: the words that differ are replaced by "_".
+func errClass(a, b string) string {
+	wa, wb := strings.Fields(a), strings.Fields(b)
+	if len(wa) != len(wb) {
+		if len(wa) > 4 {
+			wa = wa[:4]
+		}
+		return strings.Join(wa, "-") + "..."
+	}
+	for i := range wa {
+		if wa[i] != wb[i] {
+			wa[i] = "_"
+		}
+	}
+	return strings.Join(wa, "-")
 }
 
 // mapOrderDeviations: every uniform start b in 0..7 combined with ONE deviation - the k-th map iteration begun by the
@@ -862,6 +882,11 @@ func mapOrderDeviations(u unit, res *result, sc *schema, op opDef, path, base st
 				res.Evaluations++
 				res.Info["one_deviation_runs"]++
 				if o.sameResult(first) {
+					if o.ErrText != first.ErrText {
+						res.report("C14|maporder-error-text|"+errClass(first.ErrText, o.ErrText)+"|"+op.Name,
+							fmt.Sprintf("%s on %s fails under every map iteration order, but with different error texts: uniform start 0 gives %q; start %d with the %d-th iteration starting at %d gives %q", op.Name, base, first.ErrText, b, k, v, o.ErrText),
+							map[string]any{"sub": "maporder", "schema": path, "ops": []string{op.Name}, "r": []int{0, b}, "dev": []int{k, v}})
+					}
 					continue
 				}
 				o2, n2 := run(b, k, v)
@@ -1222,7 +1247,7 @@ func replay(u unit) (*result, bool) {
 			fmt.Printf("%s with map iteration start %d%s: status %s %q, %d bytes sha %s\n", op.Name, r, dv, o.status(), o.ErrText+o.Panic, len(o.Out), o.hash())
 			os2 = append(os2, o)
 		}
-		bad := !os2[0].sameResult(os2[1])
+		bad := !os2[0].sameResult(os2[1]) || os2[0].ErrText != os2[1].ErrText
 		if bad {
 			fmt.Printf("first difference at %s\n", firstDiffL(string(os2[1].Out), string(os2[0].Out), fmt.Sprintf("start %d", u.R[1]), fmt.Sprintf("start %d", u.R[0])))
 		}
